@@ -1,4 +1,5 @@
 (* C19/Witness.v — non-vacuity of the hypotheses and the refutation witnesses, by vm_compute. *)
+From Verif Require Import C19.Checker C19.Proofs13.
 From Verif Require Import Common.Base C19.Model C19.Proofs1 C19.Proofs2 C19.Proofs3 C19.Proofs4 C19.Harness.
 Local Open Scope Z_scope.
 
@@ -25,12 +26,11 @@ Definition outs_demo : list aout := [ATransient; AOk; APartial 3; APermanent; AO
 Definition ops_demo : list eop := [OOffer 7; OOffer 20; OBurst [30; 9; 5]; OFlush; OOffer 12; OOffer 3].
 
 Example demo_hypotheses :
-  o_sig opts_demo <> Profiles /\ valid_batch opts_demo /\ Forall eop_nonneg ops_demo /\ is_storage opts_demo = false /\
-  s_wfr_failed (run_exporter opts_demo outs_demo ops_demo) = 0.
+  o_sig opts_demo <> Profiles /\ valid_batch opts_demo /\ Forall eop_nonneg ops_demo /\ is_storage opts_demo = false.
 Proof.
   split; [discriminate|]. split; [intros mn mx H; vm_compute in H; inversion H; lia|].
   split; [repeat (constructor; [cbn; try lia; repeat (constructor; try lia)|]); constructor|].
-  split; reflexivity.
+  reflexivity.
 Qed.
 
 Example demo_counters :
@@ -39,7 +39,7 @@ Example demo_counters :
    s_offered st, s_shut st) = (30, 36, 20, 86, 24).
 Proof. vm_compute. reflexivity. Qed.
 
-(* S2 and C19-WFR witnesses in the wire form of the harness (replayed on the implementation by
+(* S2 witness and the former C19-WFR witness (now a regression case: enqueue_failed stays 0) in the wire form of the harness (replayed on the implementation by
    the fixed cases at the head of harness/C19/exp_test.go) *)
 Example s2_wire :
   fst (model_out (CExp [2;1;1;0;10;0;0;0;0;0;0;0;1] [(4,0)] [(0,[5])] [] [] [])) =
@@ -48,7 +48,7 @@ Proof. vm_compute. reflexivity. Qed.
 
 Example wfr_wire :
   fst (model_out (CExp [2;0;0;0;0;0;0;0;0;1;100;0;0] [(2,0)] [(0,[5])] [] [] [])) =
-  [0;0;0;0;0;0;0;0;0;0;0;0;0;0;0;0;0;0;0;0;0;5;0;0;5; 0;0;0;0;0;0;0;0;0;0;0;0;0;0;0;0; 0;0;0;0;0;0;0;0].
+  [0;0;0;0;0;0;0;0;0;0;0;0;0;0;0;0;0;0;0;0;0;5;0;0;0; 0;0;0;0;0;0;0;0;0;0;0;0;0;0;0;0; 0;0;0;0;0;0;0;0].
 Proof. vm_compute. reflexivity. Qed.
 
 (* the persistent-queue size witness in wire form (replayed by harness/C19/exp_test.go "witness-PQ-size"):
@@ -71,9 +71,17 @@ Definition opts_pers : eopts :=
      o_qbatch := None; o_batcher := Some (4, 0); o_retry := true; o_tracing := false |}.
 Example persistent_hypotheses_satisfiable :
   let st := run_exporter opts_pers [ATransient; AOk] [OOffer 3; OOffer 2; OBurst [1; 1; 1]] in
-  (s_wfr_failed st, s_kept st, s_stored st, s_offered st) = (0, 0, 0, 8) /\ valid_batch opts_pers.
+  (s_kept st, s_stored st, s_offered st) = (0, 0, 8) /\ valid_batch opts_pers.
 Proof. split; [vm_compute; reflexivity|intros mn mx H; vm_compute in H; inversion H; lia]. Qed.
 
 (* gauges_persistent_never_overcounts / the NN switch: non-negative histories exist and reach the bound strictly *)
 Example nonneg_history : Forall eop_nonneg [OOffer 3; OBurst [1; 0; 2]; OFlush].
 Proof. repeat constructor; cbn; lia. Qed.
+
+(* model_passes_checker is not vacuous: well-formed cases of every covered kind, with something to check *)
+Example wf_cases :
+  wf_case (CRecv true [(0, (7, false)); (2, (5, true))] []) /\
+  wf_case (CScr false 0 [([(4, (2, (1, 3))); (6, (1, (2, 0)))], true)] []) /\
+  wf_case (CProc 1 [(9, (0, (4, true)))] []) /\ wf_case (CPipe 3 [(10, (0, false))] []) /\
+  prop_ok (observe (CScr false 0 [([(4, (2, (1, 3))); (6, (1, (2, 0)))], true)] [])) = true.
+Proof. repeat split; try lia; try (repeat constructor; cbn; lia). Qed.
